@@ -36,8 +36,14 @@ void do_parent_for_pp()
                  __func__, __LINE__, pc->GetOrigLine(), pc->GetOrigCol());
          log_pcf_flags(LMCB, pc->GetFlags());
          size_t level = pc->GetPpLevel();
-         Chunk  *a    = viz.at(level - 1);
-         pc->SetParent(a);
+
+         // 'else' may also be a later word of a directive (#include else): no open #if then
+         if (  level >= 1
+            && level - 1 < viz.size())
+         {
+            Chunk *a = viz.at(level - 1);
+            pc->SetParent(a);
+         }
       }
       else if (pc->Is(CT_PP_ENDIF))
       {
@@ -45,9 +51,18 @@ void do_parent_for_pp()
                  __func__, __LINE__, pc->GetOrigLine(), pc->GetOrigCol());
          log_pcf_flags(LMCB, pc->GetFlags());
          size_t level = pc->GetPpLevel();
-         Chunk  *a    = viz.at(level);
-         pc->SetParent(a);
-         viz.pop_back();
+
+         // 'endif' may also be a later word of a directive (#include endif): no open #if then
+         if (level < viz.size())
+         {
+            Chunk *a = viz.at(level);
+            pc->SetParent(a);
+         }
+
+         if (!viz.empty())
+         {
+            viz.pop_back();
+         }
       }
       pc = pc->GetNextNcNnl();
    }
